@@ -16,10 +16,10 @@ BSE = "bspline::exceptions::BSplineException"
 
 class Outcome:
     """Result of one abstract call: a value, an exception, or undefined behaviour in the model."""
-    __slots__ = ("kind", "v", "cls", "code", "msg")
+    __slots__ = ("kind", "v", "cls", "code", "msg", "site")
 
-    def __init__(self, kind, v=None, cls=None, code=None, msg=None):
-        self.kind, self.v, self.cls, self.code, self.msg = kind, v, cls, code, msg
+    def __init__(self, kind, v=None, cls=None, code=None, msg=None, site=None):
+        self.kind, self.v, self.cls, self.code, self.msg, self.site = kind, v, cls, code, msg, site
 
     def __repr__(self):
         if self.kind == "val":
@@ -95,9 +95,9 @@ class World:
         try:
             return Outcome("val", thunk())
         except Thrown as t:
-            return Outcome("throw", cls=t.cls, code=t.code)
+            return Outcome("throw", cls=t.cls, code=t.code, site=getattr(t, "site", None))
         except ModelUB as e:
-            return Outcome("ub", msg=str(e))
+            return Outcome("ub", msg=str(e), site=getattr(e, "site", None))
         except OutOfFragment as e:
             raise AnalysisBroken("left the decidable fragment while evaluating %s: %s" % (what or "?", e))
         except RecursionError:
@@ -201,9 +201,26 @@ class Cases:
         key = (f.pkey, f.pqn, clause)
         st = self.stats.get(key)
         if st is None:
-            st = self.stats[key] = dict(n=0, bad=0, first=None, qn=f.qn)
+            st = self.stats[key] = dict(n=0, bad=0, first=None, qn=f.qn, ub=0, ubfirst=None)
         st["n"] += 1
+        if got is not None and got.kind == "ub":
+            st["ub"] += 1
+            if st["ubfirst"] is None:
+                st["ubfirst"] = dict(case=_plain(case), got=repr(got), want="defined behaviour")
         if not ok:
+            if got is not None and got.kind == "ub" and got.site is not None and got.site[0] != f.pkey:
+                # undefined behaviour inside another repository function: report it where it happens
+                key2 = (got.site[0], got.site[1], "no undefined behaviour on valid input")
+                st2 = self.stats.get(key2)
+                if st2 is None:
+                    st2 = self.stats[key2] = dict(n=0, bad=0, first=None, qn=got.site[2], ub=0, ubfirst=None)
+                st2["ub"] += 1
+                st2["n"] += 1
+                st2["bad"] += 1
+                if st2["first"] is None:
+                    st2["first"] = dict(case=_plain(case), got=repr(got), want="defined behaviour (reached through %s)"
+                                        % f.pqn)
+                return
             st["bad"] += 1
             if st["first"] is None:
                 st["first"] = dict(case=_plain(case), got=repr(got), want=want)
@@ -226,8 +243,11 @@ def merge_stats(into, stats):
             continue
         t["n"] += st["n"]
         t["bad"] += st["bad"]
+        t["ub"] = t.get("ub", 0) + st.get("ub", 0)
         if t["first"] is None:
             t["first"] = st["first"]
+        if t.get("ubfirst") is None:
+            t["ubfirst"] = st.get("ubfirst")
     return into
 
 
@@ -264,12 +284,27 @@ def _job(args):
     w = World(_JOB_UNIT)
     try:
         stats = getattr(mod, fname)(None, w, None, **kwargs)
-        return ("ok", stats, w.evals)
+        return ("ok", stats, w.evals, w.I.executed)
     except AnalysisBroken as e:
         return ("broken", str(e), 0)
 
 
-def run_jobs(chk, unit, rule, jobs, procs=None):
+def ub_view(stats, accessor_clauses=("at:", "absoluteFromRelative", "relativeFromAbsolute", "intervalIndexFromAbsolute",
+                                     "front", "back", "findElement", "evaluation at an unordered")):
+    """C09's view of the statistics: only undefined behaviour counts as disagreement, except for the checked
+    accessors / conversions whose clause *is* 'throws or reports not-contained for every out-of-view index'."""
+    out = {}
+    for key, st in stats.items():
+        clause = key[2]
+        st2 = dict(st)
+        if not clause.startswith(accessor_clauses):
+            st2["bad"] = st.get("ub", 0)
+            st2["first"] = st.get("ubfirst") if st.get("ub", 0) else None
+        out[(key[0], key[1], "no undefined behaviour: " + clause)] = st2
+    return out
+
+
+def run_jobs(chk, unit, rule, jobs, procs=None, view=None):
     """jobs: list of (module name, suite function name, kwargs).  Returns number of regions evaluated."""
     import multiprocessing as mp
     import os
@@ -289,7 +324,10 @@ def run_jobs(chk, unit, rule, jobs, procs=None):
             raise AnalysisBroken(r[1])
         merge_stats(stats, r[1])
         evals += r[2]
+        chk.executed |= r[3]
     chk.notes["abstract_calls"] = chk.notes.get("abstract_calls", 0) + evals
+    if view is not None:
+        stats = view(stats)
     return flush_stats(chk, rule, stats)
 
 
